@@ -288,9 +288,23 @@ def to_node(
         if index == -1:
             raise ValueError(f"Could not find {column} in {scope.expression}")
 
+        # UNION [ALL] BY NAME matches the operands' columns by name, not by position
+        by_name = (
+            selectable.selects[index].alias_or_name
+            if scope.expression.args.get("by_name") and index < len(selectable.selects)
+            else None
+        )
+
         for s in scope.union_scopes:
+            if by_name and not any(
+                sel.alias_or_name == by_name or sel.is_star for sel in s.expression.selects
+            ):
+                raise SqlglotError(
+                    f"Cannot find column '{by_name}' in query: {s.expression.sql(dialect=dialect)}"
+                )
+
             to_node(
-                index,
+                by_name or index,
                 scope=s,
                 dialect=dialect,
                 upstream=upstream,
